@@ -88,6 +88,11 @@ package generator
 //@   worker ensures recvd(processing) == 1
 //@   worker ensures sent(errs) <= 1 && sentNonNil(errs)
 //@   worker ensures $fcalls <= 2
+//@   worker ensures ncalls("f") <= 1 && ncalls("p.pp.PostProcess") <= 1
+//@   worker ensures !$panic && sent(errs) == 0 ==> ncalls("f") == 1
+//@   worker ensures ncalls("f") == 1 ==> callarg("f", 0) == old(j.Path)
+//@   worker ensures ncalls("f") == 1 && old(p.pp) == nil ==> callarg("f", 1) == old(unsafex.StringToBinary(j.Content))
+//@   worker ensures ncalls("f") == 1 && old(p.pp) != nil ==> ncalls("p.pp.PostProcess") == 1 && callarg("p.pp.PostProcess", 0) == old(j.Path) && callarg("p.pp.PostProcess", 1) == old(unsafex.StringToBinary(j.Content)) && callarg("f", 1) == callret("p.pp.PostProcess", 0)
 
 //@ func newAsyncPostProcess(pp backend.PostProcessor) *asyncPostProcess
 //@   ensures result != nil && fresh(result) && result.pp == pp && len(result.jobs) == 0 && result.concurrency >= 1
